@@ -6,6 +6,8 @@ HERE = os.path.dirname(os.path.dirname(os.path.abspath(__file__)))
 BASELINE = ('cd /repo && /venv/bin/python -m pytest -ra -q -p no:cacheprovider --timeout=900 '
             '--continue-on-collection-errors')
 
+SIM = 'deterministic simulation with fault injection: '
+
 CLAIMED = {
     'C09': {
         'text': 'Seeded simulation of every load/dump entry point over simulated raw devices beneath the real CPython '
@@ -14,9 +16,75 @@ CLAIMED = {
                 'byte offset, interleaved lazy decoders. Sampling, not proof.',
         'note': 'Trusts: CPython io stack, my line splitter and tree writer (independent of penman), penman.loads of the '
                 'same text as the reference meaning. Round-trip equality is top + triple multiset + ordered metadata.',
-        'technique': 'deterministic simulation with fault injection: simulated raw I/O devices (chunking, EINTR, EIO, EOF, ENOSPC) '
-                     'under real io layers, seeded framing/container/fault plans, ddmin-minimised replayable traces',
+        'technique': SIM + 'simulated raw I/O devices (chunking, EINTR, EIO, EOF, ENOSPC) under the real io layers, seeded '
+                     'framing/container/fault plans, interleaved lazy iterators, ddmin-minimised replayable traces',
         'design_ref': 'DESIGN.md section 4 (C09)',
+    },
+    'C16': {
+        'text': 'The real main() runs in-process at a simulated process boundary (argv, stdin, FILE... in every order incl. the '
+                'same file twice, stdout, exit status accumulated over the history of inputs) with C09\'s stream faults; an '
+                'independent role-membership reference decides the offending triples per graph, the exit status and the '
+                'error-N metadata; a sample is cross-checked against real `python -m penman` child processes. Model.errors on '
+                'arbitrary triple lists is only sampled through edit histories (disconnect, empty, re-top).',
+        'note': 'Trusts the reference reading of "defined directly or as a single inversion" and of weak connectivity '
+                '(union-find over non-instance triples among source variables). Does not enumerate triple lists x tops.',
+        'technique': SIM + 'in-process simulation of the CLI process boundary over SimFS with seeded input-file histories and '
+                     'stream faults, reference model for role errors/exit status, subprocess cross-check',
+        'design_ref': 'DESIGN.md section 4 (C16)',
+    },
+    'C20': {
+        'text': 'The tool as a stream-to-stream process under the simulator: output compared block by block with the documented '
+                'library pipeline composed from public calls, under sampled option sets (power set of normalisation options x '
+                'formatting x models x stdin/1-3 files) and stream faults; formatting pairs must decode to equal graphs; the '
+                'tool is re-applied to its own output (sequentially and as two concurrently scheduled processes joined by a '
+                'bounded simulated pipe); a sample runs as real child processes under two hash seeds.',
+        'note': 'Trusts the reference pipeline order taken from docs/command.rst and the statement; blank-line counts across file '
+                'boundaries are only constrained by the normal-form clause (known finding F16); --triples is excluded from feed-back.',
+        'technique': SIM + 'in-process CLI process simulation over SimFS, bounded-pipe two-process pipeline under a seeded baton '
+                     'scheduler, differential oracle against the library pipeline, subprocess cross-check',
+        'design_ref': 'DESIGN.md section 4 (C20)',
+    },
+    'C06': {
+        'text': 'Seeded fault/edit histories on one live Graph: loss, duplication, reordering, misattachment, aliasing and '
+                'staleness of Push/POP markers, reordering of the triple log, content edits, restarts and probes, with encode '
+                'judged after every step against union-find connectivity and multiset content references and under a line-step '
+                'budget (bounded liveness). History/fault-sequence tier: no scheduling or I/O dimension exists in this property.',
+        'note': 'Trusts the reference notions of variable, weak connectivity and content (one deinversion, constants by written '
+                'form). Push on a non-variable target is content by the pinned test_encode and is never injected.',
+        'technique': SIM + 'seeded fault sequences on the stored epigraph (marker loss/duplication/reordering/staleness) with '
+                     'per-step invariants against a reference model and a step budget; minimised replayable histories',
+        'design_ref': 'DESIGN.md section 4 (C06)',
+    },
+    'C12': {
+        'text': 'Seeded programs of transformations (CLI order and any other, indicate-branches at most once, restarts) on decoded, '
+                'hand-built, edited and re-topped graphs under default/AMR/custom models with invariants after every step: no '
+                'exception, same top, well-formed, connected, encodes and decodes to itself; contraction/removal clauses.',
+        'note': 'History tier without scheduling/I-O dimension. Edits that leave a half-deleted node (dangling reference) are '
+                'outside the domain. Known findings F4, F17b, F18b are matched by structural predicates.',
+        'technique': SIM + 'seeded operation programs and edit histories (stale/missing markers) on a live object with per-step '
+                     'invariants against reference models; minimised replayable traces',
+        'design_ref': 'DESIGN.md section 4 (C12)',
+    },
+    'C05': {
+        'text': 'Seeded histories of re-layout operations (reconfigure under every key incl. random drawn from a simulator-owned '
+                'PRNG stream, configure+rearrange, encode from another top, adopt, restart) interleaved with reorderings and '
+                'marker loss, with content equality after every re-layout and per-node ordering/stability judgement of rearrange.',
+        'note': 'History tier; the PRNG seam (S8) and stale markers (S9) are the only nondeterminism/fault seams in it. Role '
+                'alignments are not generated for the ordering clause.',
+        'technique': SIM + 'seeded operation histories with a simulator-owned PRNG stream (seeded/constant/decreasing/two-valued) '
+                     'and stale-marker faults, content and sort-key reference models',
+        'design_ref': 'DESIGN.md section 4 (C05)',
+    },
+    'C15': {
+        'text': 'Seeded histories of |, |=, -, -= (incl. self-application), top assignment and construction on a heap of up to '
+                'four graphs with results stored back; every slot (result, operands, bystanders) is compared with a reference '
+                'model and queried after every operation; batches are re-executed under other hash seeds and per-operation '
+                'digests must agree.',
+        'note': 'History tier; hash randomisation is the nondeterminism seam. Markers of common triples, entries of removed '
+                'triples and result metadata are unconstrained.',
+        'technique': SIM + 'seeded operation histories on an aliasing heap against a reference model, hash-seed replicas in '
+                     'fresh interpreters',
+        'design_ref': 'DESIGN.md section 4 (C15)',
     },
 }
 
